@@ -148,6 +148,6 @@ func TestC11(t *testing.T) {
 func TestC14(t *testing.T) {
 	runPkt(t, "C14", "exploration", 40, 60, 60, func(pr *Profile, o *SimOpts) {
 		*o = SimOpts{Ordered: true}
-		pr.Timeout, pr.SoonPct, pr.Close = 14, 60, 1
-	}, map[string]int64{"ordered_timeout_closes": 20, "closed_state_checks": 100})
+		pr.Timeout, pr.SoonPct, pr.Close, pr.Reopen = 14, 60, 1, 6
+	}, map[string]int64{"ordered_timeout_closes": 20, "closed_state_checks": 100, "reopen_attempts": 20})
 }
